@@ -1532,7 +1532,8 @@ func (pc *PartitionContext) removeAllocation(release *si.AllocationRelease) ([]*
 				zap.String("nodeID", alloc.GetNodeID()))
 			continue
 		}
-		if release.TerminationType == si.TerminationType_PLACEHOLDER_REPLACED {
+		// without a replacement in flight there is nothing to swap in: the allocation is simply removed
+		if release.TerminationType == si.TerminationType_PLACEHOLDER_REPLACED && alloc.GetRelease() != nil {
 			confirmed = alloc.GetRelease()
 			// we need to check the resources equality
 			delta := resources.Sub(confirmed.GetAllocatedResource(), alloc.GetAllocatedResource())
